@@ -1,32 +1,61 @@
 import os
 from driver import Job
 
+# VERIF_C14_ONLY=seq|conc restricts the check to one part (development aid)
 _only = os.environ.get("VERIF_C14_ONLY", "")
 _jobs = [
-    Job("seq", "verifsim", "^TestVerifC14Seq$", shards=(6, 12), timeout=(600, 3000)),
-    Job("conc", "verifsim", "^TestVerifC14Conc$", race=True, shards=(8, 12), timeout=(600, 3000)),
+    # sequential part: generated operation sequences on a real replica's TxPool, invariants after every operation
+    Job("seq", "verifsim", "^TestVerifC14Seq$", shards=(6, 12), timeout=(900, 3600)),
+    # concurrent part (E4): node-shaped goroutine topology under the race detector
+    Job("conc", "verifsim", "^TestVerifC14Conc$", race=True, shards=(8, 12), timeout=(900, 3600)),
 ]
 if _only:
     _jobs = [j for j in _jobs if j.name in _only.split(",")]
 
 SPEC = {
     "engine": "E4", "level": "exploration",
-    "technique": "runtime monitor of the real TxPool of a simulated replica: invariants of the property evaluated after every generated "
-                 "operation (sequential) and, under the race detector, a node-shaped concurrent workload with a progress watchdog, "
-                 "engine-side candidate-list checks and a porcupine linearizability check of per-hash Add/Get/Remove histories",
-    "level_text": "Generated operation sequences and real-concurrency runs against the unmodified pool and chain code; every invariant "
-                  "of the property text held on all operations executed, no panic, no stall, and the only race-detector reports are "
-                  "the ones listed as known findings. Schedules are sampled by the Go scheduler (delay point armed), not enumerated.",
-    "level_note": "consensus rules V12, synthetic epoch results, no libp2p; 'made invalid' is decided by the repo's own "
-                  "validation.ValidateTx against the new head (the rule ResetTo itself applies); membership invariants are asserted "
-                  "sequentially and at quiescence only; the order-independence probe is a metamorphic reading of 'coherent under any "
-                  "submission order' (clean sender, no limits hit, no validation session)",
+    "technique": "runtime monitor of the real TxPool of a simulated replica: (1) the invariants of the property evaluated through the "
+                 "pool's public API after every operation of generated sequences; (2) a node-shaped concurrent workload under the Go "
+                 "race detector with a progress watchdog, engine-side candidate-list checks, quiescent membership checks and a "
+                 "porcupine linearizability check of per-hash Add/Get/Remove histories",
+    "level_text": "Generated operation sequences (external/internal adds in and out of nonce order, same-nonce conflicts, several epochs, "
+                  "priority ceremony types inside the validation periods, tiny per-address and global limits, blocks built from this and "
+                  "from another pool, chain StartSync/StopSync with deferred txs, list building) and real-concurrency runs (1 engine + "
+                  "4-12 submitters incl. AsyncTxPool, delay point armed) against the unmodified pool and chain code. Held on every "
+                  "operation / run executed, apart from the findings listed as known. Schedules are sampled by the Go scheduler, "
+                  "not enumerated; 'never deadlocks' is claimed up to the 60 s progress watchdog.",
+    "level_note": "consensus rules V12, synthetic epoch results, no libp2p. 'made invalid' is decided by the repo's own "
+                  "validation.ValidateTx(MempoolTx) against the new head (the rule ResetTo itself applies: the tx or a lower nonce of "
+                  "its sender fails), a past epoch, or inclusion; there is no eviction other than ResetTo in this code. Membership "
+                  "invariants are asserted sequentially and at quiescence only (transient states between two ResetTo under "
+                  "concurrency are not verdicts). The order-independence probe (k consecutive valid transfers of an otherwise idle "
+                  "sender submitted in a random order must all be offered after one ResetTo(head), up to the per-address executable "
+                  "limit, outside validation periods, gas cap not reached) is the metamorphic reading of 'coherent under any "
+                  "submission order'. Adds whose effect cannot be bounded from the API boundary (AsyncTxPool queue, txs deferred "
+                  "in a sync window) enter the linearizability model as a background adder (sound over-approximation); removals "
+                  "are the RemoveMemPoolTx callbacks with the interval [last chain-side collector callback, callback].",
     "rule": "case = one pool operation followed by a full invariant evaluation (sequential) or one concurrent run (concurrent); "
             "distinct_nontrivial = distinct op sequences between two blocks whose ResetTo promoted or evicted >= 1 tx, plus distinct "
-            "per-hash call/return event-order signatures with >= 2 operations of >= 2 goroutines",
+            "call/return event orders of bursts in which >= 2 goroutines overlapped on one tx hash",
     "jobs": _jobs,
-    "floors": {},
+    "floors": ({} if _only else {
+        # sequential part (deterministic in seed and tier)
+        "promotions": (100, 2000), "evictions": (300, 6000), "limit_rejections": (300, 6000),
+        "sync_deferred_readded": (100, 2000), "blocks_while_syncing": (100, 2000),
+        "order_probes_asserted": (100, 2000), "order_probes_out_of_order": (50, 1000),
+        "epoch_changes": (20, 400), "priority_add:ok": (100, 2000), "offers_with_priority_tx": (200, 4000),
+        "resets_inside_sessions": (200, 4000), "resets_outside_sessions": (500, 10000),
+        "offers_with_pool_over_gas_cap": (5, 100), "blocks_built_elsewhere": (300, 6000),
+        "conflicting_tx_to_other_proposer": (100, 2000), "add_path:internal": (300, 6000), "add_path:batch": (300, 6000),
+        # concurrent part (schedule dependent; far below what is normally observed)
+        "race_detector_runs": (8, 12), "conc_runs": (12, 300), "interleaving_signatures": (50, 500),
+        "conc_overlapping_bursts": (1000, 20000), "conc_removals_reported": (300, 6000), "conc_sync_windows": (5, 100),
+        "conc_adds_in_sync_window": (100, 2000), "conc_point_hits": (10000, 200000), "conc_offers_checked": (200, 5000),
+        "conc_blocks_in_period_2": (3, 60), "conc_blocks_in_period_3": (3, 60), "conc_epoch_changes": (4, 100),
+        "conc_add_ok": (1000, 20000), "conc_add_dup": (1000, 20000), "conc_get_t": (1000, 20000), "conc_get_f": (1000, 20000),
+    }),
     "parallel": 16,
     "assumptions": ["consensus config V12", "epoch results come from the synthetic epoch function",
-                    "schedules are those the Go scheduler produced on this machine (GOMAXPROCS as available)"],
+                    "schedules are those the Go scheduler produced on this machine (delay point txpool.afterReadonly armed with a yield)",
+                    "deadlock freedom is claimed up to a 60 s progress watchdog with one reproduction attempt"],
 }
